@@ -217,13 +217,16 @@ cmplx_t mean(const arr_cmplx& arr) {
 
 //-------------------------------------------------------------------------------------------------
 real_t stddev(const arr_real& arr) {
+    //sample standard deviation (normalized by n-1)
+    const int n = arr.size();
     real_t m = mean(arr);
-    return rms(arr - m);
+    return rms(arr - m) * std::sqrt(real_t(n) / (n - 1));
 }
 
 real_t stddev(const arr_cmplx& arr) {
+    const int n = arr.size();
     auto m = mean(arr);
-    return rms(arr - m);
+    return rms(arr - m) * std::sqrt(real_t(n) / (n - 1));
 }
 
 //-------------------------------------------------------------------------------------------------
@@ -346,7 +349,7 @@ real_t rms(const arr_real& arr) {
     for (int i = 0; i < n; ++i) {
         sum += (arr[i] * arr[i]);
     }
-    return std::sqrt(sum / (n - 1));
+    return std::sqrt(sum / n);
 }
 
 real_t rms(const arr_cmplx& arr) {
@@ -356,7 +359,7 @@ real_t rms(const arr_cmplx& arr) {
         sum += (arr[i].re * arr[i].re);
         sum += (arr[i].im * arr[i].im);
     }
-    return std::sqrt(sum / (n - 1));
+    return std::sqrt(sum / n);
 }
 
 //-------------------------------------------------------------------------------------------------
